@@ -23,6 +23,8 @@ Line ==
        [] e.k = "oinh" -> e.r \in {"ok", "ErrBadOption"} /\ (e.r = "ok" => e.same = TRUE) /\ (e.kind = "ctx" => e.r = "ok") /\ UNCHANGED vars
        \* unsupported operations fail with the designated error
        [] e.k = "oop" -> e.r = e.want /\ UNCHANGED vars
+       \* ... and without side effect: a refused Device started nothing
+       [] e.k = "oopside" -> e.started = 0 /\ UNCHANGED vars
        \* a pipe describes the actual connection and the endpoint that created it
        [] e.k = "opipe" -> e.local /\ e.remote /\ e.dialer /\ e.listener /\ e.addr /\ e.idok /\ UNCHANGED vars
        [] e.k \in {"opipetls", "opipepid"} -> e.ok = TRUE /\ UNCHANGED vars
